@@ -20,7 +20,12 @@ func init() {
 		return func(ex *Exec, fr *Frame, callee *ssa.Function, args []Val, st *State, k CallCont) {
 			x := ex.bigOperand(fr, st, args[1])
 			y := ex.bigOperand(fr, st, args[2])
-			ex.bigAssign(fr, st, args[0], Term{op(x.S, y.S), SInt})
+			r := Term{op(x.S, y.S), SInt}
+			ex.bigAssign(fr, st, args[0], r)
+			if args[0].K == VTerm {
+				k(st, tv(Term{app("oi_some", r.S), SOptInt}), false)
+				return
+			}
 			k(st, args[0], false)
 		}
 	}
@@ -213,7 +218,9 @@ func init() {
 	noop := func(ex *Exec, fr *Frame, callee *ssa.Function, args []Val, st *State, k CallCont) {
 		k(st, ex.resultVal(st, callee.Signature, "lib"), false)
 	}
-	for _, n := range []string{"fmt.Println", "fmt.Printf", "fmt.Print", "(*sync.WaitGroup).Add", "(*sync.WaitGroup).Done", "(*sync.WaitGroup).Wait"} {
+	// mutexes have no state a contract can mention; mutual exclusion itself is an assumption about sync
+	for _, n := range []string{"fmt.Println", "fmt.Printf", "fmt.Print", "(*sync.WaitGroup).Add", "(*sync.WaitGroup).Done", "(*sync.WaitGroup).Wait",
+		"(*sync.Mutex).Lock", "(*sync.Mutex).Unlock", "(*sync.RWMutex).Lock", "(*sync.RWMutex).Unlock", "(*sync.RWMutex).RLock", "(*sync.RWMutex).RUnlock"} {
 		externModels[n] = noop
 	}
 }
@@ -265,6 +272,13 @@ func (ex *Exec) bigOperand(fr *Frame, st *State, v Val) Term {
 func (ex *Exec) bigAssign(fr *Frame, st *State, recv Val, v Term) {
 	if recv.K == VPtr {
 		ex.store(st, recv.P, tv(v))
+		return
+	}
+	if recv.K == VTerm && recv.Prov != nil {
+		// the big.Int behind a pointer loaded from a field or local: the new value is written
+		// back to that location (sound when no other pointer to the same big.Int is live)
+		ex.vc.note("in-place big.Int update through a loaded pointer at %s: written back to the location it was loaded from (aliases of that pointer are not tracked)", ex.where())
+		ex.store(st, recv.Prov, tv(Term{app("oi_some", v.S), SOptInt}))
 		return
 	}
 	ex.vc.fatalf("frame: in-place mutation of a big.Int that was not allocated in this function (%s)", ex.where())
